@@ -67,7 +67,7 @@ impl log::Log for FlexiLogger {
                             eprint_msg(ErrorCode::WriterSpec, &format!("bad writer spec: {t}"));
                         }
                         Some(writer) => {
-                            if level < writer.max_log_level() {
+                            if level <= writer.max_log_level() {
                                 return true;
                             }
                         }
